@@ -5,6 +5,12 @@
 //! alphabet (per the reference semantics) is run, proven and verified with the real prover
 //! and verifier; all three must succeed. A representative subset is repeated under every
 //! prover configuration (lanes, Horner packing, minimum trace height).
+//!
+//! Extension-field pass (`ext_pass.rs`, instantiated per element field): a reduced program
+//! space (every single call kind, two-call programs of the multiplicative kinds, 2-3-step Horner
+//! chains) over BabyBear^4, BabyBear^5 (binomial), KoalaBear^5 (quintic trinomial) and
+//! Goldilocks^2 with inputs whose extension coefficients are all non-zero, proven and verified
+//! with the real prover / verifier of that field under two packings.
 
 use std::sync::Mutex;
 use std::sync::atomic::{AtomicU64, Ordering};
@@ -20,6 +26,90 @@ use vpe1::explore::{SeenSet, Stats, explore, input_vectors};
 use vpe1::prog::{Program, materialize, ref_eval, remove_call};
 
 type F = BabyBear;
+
+/// One extension-field pass module per element field (body: ext_pass.rs).
+macro_rules! ext_pass {
+    ($name:ident, $tag:literal, $label:literal, $bf:ty, $ef:ty, $d:literal, $sc:ty, $cfg:expr) => {
+        mod $name {
+            pub type BF = $bf;
+            pub type F = $ef;
+            pub const D: usize = $d;
+            pub type SC = $sc;
+            pub const TAG: &str = $tag;
+            pub const LABEL: &str = $label;
+            pub fn cfg() -> SC {
+                $cfg
+            }
+            include!("ext_pass.rs");
+        }
+    };
+}
+
+ext_pass!(bb4, "bb4", "BabyBear^4 binomial", p3_baby_bear::BabyBear, p3_field::extension::BinomialExtensionField<p3_baby_bear::BabyBear, 4>, 4,
+    p3_circuit_prover::config::BabyBearConfig, vpe1::accept::fast_baby_bear());
+ext_pass!(bb5, "bb5", "BabyBear^5 binomial", p3_baby_bear::BabyBear, p3_field::extension::BinomialExtensionField<p3_baby_bear::BabyBear, 5>, 5,
+    p3_circuit_prover::config::BabyBearConfig, vpe1::accept::fast_baby_bear());
+ext_pass!(kb5, "kb5", "KoalaBear^5 quintic trinomial", p3_koala_bear::KoalaBear, p3_field::extension::QuinticTrinomialExtensionField<p3_koala_bear::KoalaBear>, 5,
+    p3_circuit_prover::config::KoalaBearConfig, vpe1::accept::fast_koala_bear());
+ext_pass!(gl2, "gl2", "Goldilocks^2 binomial", p3_goldilocks::Goldilocks, p3_field::extension::BinomialExtensionField<p3_goldilocks::Goldilocks, 2>, 2,
+    p3_circuit_prover::config::GoldilocksConfig, crate::fast_goldilocks());
+
+/// The repository's Goldilocks configuration (`config::goldilocks()`: same permutation seed,
+/// hash, compression, MMCS, DFT, challenger) with test-grade FRI parameters, like
+/// `vpe1::accept::fast_baby_bear`.
+fn fast_goldilocks() -> p3_circuit_prover::config::GoldilocksConfig {
+    use p3_symmetric::{PaddingFreeSponge, TruncatedPermutation};
+    use rand::SeedableRng;
+    let mut rng = rand::rngs::SmallRng::seed_from_u64(1);
+    let perm = p3_goldilocks::Poseidon2Goldilocks::<8>::new_from_rng_128(&mut rng);
+    let hash = PaddingFreeSponge::<_, 8, 4, 4>::new(perm.clone());
+    let compress = TruncatedPermutation::<_, 2, 4, 8>::new(perm.clone());
+    let val_mmcs = p3_merkle_tree::MerkleTreeMmcs::new(hash, compress, 3);
+    let challenge_mmcs = p3_commit::ExtensionMmcs::new(val_mmcs.clone());
+    let dft = p3_dft::Radix2DitParallel::default();
+    let fri_params = p3_fri::FriParameters::new_testing(challenge_mmcs, 0);
+    let pcs = p3_fri::TwoAdicFriPcs::new(dft, val_mmcs, fri_params);
+    let challenger = p3_challenger::DuplexChallenger::new(perm);
+    p3_uni_stark::StarkConfig::new(pcs, challenger)
+}
+
+/// Op list of a compiled circuit without constant values (which constants are zero is kept:
+/// the Horner chaining class depends on it). Equal signatures = same tables, same wiring.
+fn shape_sig<T: PrimeCharacteristicRing + PartialEq>(c: &p3_circuit::Circuit<T>) -> String {
+    use p3_circuit::ops::Op;
+    let mut s = String::new();
+    for o in &c.ops {
+        s.push_str(&match o {
+            Op::Const { out, val } => format!("C{:?}{};", out, if *val == T::ZERO { "z" } else { "" }),
+            Op::Public { out, public_pos } => format!("P{out:?}@{public_pos};"),
+            Op::Alu { kind, a, b, c, out, intermediate_out } => format!("A{kind:?}({a:?},{b:?},{c:?},{out:?},{intermediate_out:?});"),
+            Op::Hint { inputs, outputs, .. } => format!("H{inputs:?}->{outputs:?};"),
+            Op::NonPrimitiveOpWithExecutor { inputs, outputs, .. } => format!("N{inputs:?}->{outputs:?};"),
+        });
+    }
+    s
+}
+
+/// Reduced families of the extension-field pass.
+fn ext_families(thorough: bool) -> Vec<Family> {
+    const ALLA: [AK; 3] = [AK::Connect, AK::AssertZero, AK::AssertBool];
+    const CONN: [AK; 2] = [AK::Connect, AK::AssertZero];
+    const MULK: [VK; 4] = [VK::Mul, VK::Div, VK::MulAdd, VK::Horner];
+    let single = [VK::Add, VK::Sub, VK::Mul, VK::Div, VK::MulAdd, VK::Select, VK::Horner];
+    let mut v = vec![
+        // every single call kind over fresh inputs / constants, with at most one assertion
+        fam("x-single-k1-c1", &single, &ALLA, 1, 1, 4, 0, &[0, 1, 2], 1),
+        // two calls of the multiplicative kinds
+        fam("x-mulkinds-k2-c0", &MULK, &CONN, 2, 0, 3, 0, &[2], 2),
+    ];
+    if thorough {
+        v.push(fam("x-single-k1-c1-priv", &single, &ALLA, 1, 1, 4, 1, &[0, 1, 2, 3], 1));
+        v.push(fam("x-bin-k2-c1", &[VK::Add, VK::Sub, VK::Mul, VK::Div], &ALLA, 2, 1, 3, 0, &[0, 1, 2], 0));
+        v.push(fam("x-mulkinds-k2-c1", &MULK, &CONN, 2, 1, 3, 0, &[2], 2));
+        v.push(fam("x-horner-k3-c0", &[VK::Horner], &CONN, 3, 0, 2, 0, &[2], 3));
+    }
+    v
+}
 
 fn consts() -> Vec<F> {
     vec![F::ZERO, F::ONE, F::from_u64(5), F::from_u64(7)]
